@@ -54,7 +54,7 @@ fn o02e_format_constants_compressor() {
 }
 
 //@ obligation: O-18p
-//@ props: C18
+//@ props: C18 C05
 //@ kind: complete
 //@ functions: agc_compressor::sync_token_priority
 //@ claim: the queue priority of a sync token, sync_token_priority(p) = p + SYNC_TOKEN_PRIORITY_BOOST, cannot overflow for EVERY sample priority the compressor hands out (priorities start at FIRST_SAMPLE_PRIORITY and only count down), lies strictly above p (the token is queued in front of its sample's contigs), and the first sample's token still fits in i32; all i32 values (loop-free, full domain)
